@@ -9,6 +9,7 @@ type c18Op struct {
 	typ  int // 0 entA, 1 entB
 	key  string
 	val  int
+	tag  string // optional field of entA (omitted from the message when empty)
 }
 
 func c18Publish(bus *eventbus.EventBus, o c18Op) {
@@ -17,13 +18,13 @@ func c18Publish(bus *eventbus.EventBus, o c18Op) {
 	switch o.kind {
 	case 0:
 		if o.typ == 0 {
-			msg, err = Insert(o.key, entA{V: o.val})
+			msg, err = Insert(o.key, entA{V: o.val, Tag: o.tag})
 		} else {
 			msg, err = Insert(o.key, entB{V: o.val})
 		}
 	case 1:
 		if o.typ == 0 {
-			msg, err = Update(o.key, entA{V: o.val})
+			msg, err = Update(o.key, entA{V: o.val, Tag: o.tag})
 		} else {
 			msg, err = Update(o.key, entB{V: o.val})
 		}
@@ -51,23 +52,28 @@ func c18Publish(bus *eventbus.EventBus, o c18Op) {
 
 // c18Want folds ops[:upto] for (typ, probe): the last write not followed by a delete or reset.
 func c18Want(ops []c18Op, upto, typ int, probe string) (int, bool) {
-	val, ok := 0, false
+	v, _, ok := c18WantTag(ops, upto, typ, probe)
+	return v, ok
+}
+
+func c18WantTag(ops []c18Op, upto, typ int, probe string) (int, string, bool) {
+	val, tag, ok := 0, "", false
 	for i := 0; i < upto; i++ {
 		o := ops[i]
 		switch o.kind {
 		case 0, 1:
 			if o.typ == typ && o.key == probe {
-				val, ok = o.val, true
+				val, tag, ok = o.val, o.tag, true
 			}
 		case 2:
 			if o.typ == typ && o.key == probe {
-				val, ok = 0, false
+				val, tag, ok = 0, "", false
 			}
 		case 3:
-			val, ok = 0, false
+			val, tag, ok = 0, "", false
 		}
 	}
-	return val, ok
+	return val, tag, ok
 }
 
 // c18Live counts live keys of typ after ops[:upto].
@@ -120,8 +126,8 @@ func c18New(strict bool) *c18Mat {
 
 func (x *c18Mat) check(ops []c18Op, upto int, probe string, wantOff eventbus.Offset, label string) {
 	va, oka := x.a.Get(probe)
-	wa, woka := c18Want(ops, upto, 0, probe)
-	vAssert(oka == woka && (!oka || va.V == wa), label+"-collection-A-is-fold")
+	wa, wtag, woka := c18WantTag(ops, upto, 0, probe)
+	vAssert(oka == woka && (!oka || (va.V == wa && va.Tag == wtag)), label+"-collection-A-is-fold")
 	vb, okb := x.b.Get(probe)
 	wb, wokb := c18Want(ops, upto, 1, probe)
 	vAssert(okb == wokb && (!okb || vb.V == wb), label+"-collection-B-is-fold")
@@ -143,6 +149,9 @@ func harnessC18Fold() {
 			o.key = vStr("key")
 			vAssume(o.key != "")
 			o.val = vInt(-9, 9)
+			if o.typ == 0 && vBool() {
+				o.tag = vStr("tag")
+			}
 		}
 		ops[i] = o
 	}
